@@ -227,6 +227,8 @@ class C02(QueryFamily):
                    "row sets (projections) with caching disabled; caching enabled and re-evaluation compared with the specification")
 
     def gen(self, rng, i, tier):
+        if rng.random() < 0.2:
+            return gen_query.gen_case_conj_under_disj(rng, tier)
         nv = rng.choice([2, 2, 3] if tier == 'quick' else [2, 3, 3, 4])
         return gen_query.gen_case(rng, nvars=nv, falsy=True, neg=True, maxdepth=3, select=rng.choice(['all', 'all', 'some']),
                                   dom_max=4 if nv < 4 else 3)
@@ -429,6 +431,9 @@ class C18(QueryFamily):
     explanation = ("C18_rewrite_sat (truth is invariant under every composition of the rewrites), C18_invariant / C18_domain_permutation (so "
                    "is the result set, via C02); tie = rows of the variant against the model run on the variant")
 
+    def budget(self, tier):
+        return {'quick': 600, 'thorough': 8000, 'search': 1}.get(tier, 600)
+
     def gen(self, rng, i, tier):
         return gen_query.gen_pair(rng, tier)
 
@@ -575,6 +580,16 @@ class C11(QueryFamily):
             pos = [j for j, t in enumerate(c['sel']) if t == ['var', min(ik)]] if rng.random() < 0.5 else []
             j = pos[0] if pos else rng.randrange(len(c['sel']))
             c['sel'][j] = ['nest', max(keys) + 10, inner]
+            if len(keys) >= 2 and rng.random() < 0.5:
+                # the body is a disjunction whose second branch holds for several values of the variable of the nested argument
+                # under one binding of the others, and that variable occurs nowhere else in the head
+                y = min(ik)
+                x = rng.choice([k for k in keys if k != y])
+                fa = lambda k: ['map', ['f', gen_query.F[rng.choice('ab')]], ['var', k]]
+                c['cond'] = ['or', ['cmp', rng.choice(['==', '!=', '<']), fa(x), fa(y)],
+                             ['cmp', rng.choice(['>=', '<=', '!=']), fa(y), ['lit', rng.randint(0, 2)]], rng.choice(['fn', 'op'])]
+                c['sel'] = [t if (t[0] == 'nest' or y not in term_keys(t, set())) else ['map', ['f', gen_query.F['s']], ['var', x]]
+                            for t in c['sel']]
         # make sure the shuffle/truncation kept every variable mentioned
         mentioned = set()
         for t in c['sel']:
